@@ -48,7 +48,7 @@ V8_BASE = ["V8_lower.fn:lemma_*", "V8_lower.fn:FunctionModifier as *", "V8_lower
            "V8_lower.fn:InstrumentationFlag::*", "V8_lower.fn:Instruction::add_instr", "V8_lower.fn:FuncInstrFlag::add_instr", "V8_lower.fn:v_inject_all",
            # which functions the lowering visits at all (rule R23, unit V2)
            "V2_reindex.functions_visited_by_the_lowering.*", "V2_reindex.fn:Module::functions_visited_by_the_lowering"]
-LOWER_GLUE = ["Module::resolve_special_instrumentation: the per-function driver (block stack, which helper runs at which instruction, delete_block / retain_end bookkeeping, resolve_on_end maps) is not under contract, EXCEPT (i) the preparation of entry / exit code before the loop and (ii) WHICH functions the outer loop visits (rule R23, unit V2: every local function of the re-organised container; F30), (iii) ONE ITERATION of the inner loop (rule R19) for eleven cases, each a contract on the same extracted text restricted by its `requires`: inside a removed construct; the opener carrying a block-alternate; the matching `end` of a removed construct; an opener with only a block-entry probe; a block / loop with only a block-exit probe; a single-target branch with only a semantic-after probe; an `end` outside any removed construct with bodies pending in either or both tables (the two flush loops are replaced there by calls of the flush regions, verified on their own against the same text: both tables are flushed at this `end` and their entries taken off) - with function-level entry / exit code possibly pending: at the function's last instruction the wrapper block is closed and the exit code follows, spent there; an `else` outside any removed construct with bodies pending for 'the else or the end' of its `if` (flushed here, taken off, the other table untouched; `remove_for_top`, which stands for the closure expression that removes the entry, is ASSUMED to be HashMap::remove for the innermost open construct); an `else` that carries a block-alternate (pending bodies of its `if` are still flushed here, then the else-arm is replaced and removed up to the `end`, which stays); a block / loop / if with ANY combination of block-entry, block-exit and semantic-after requests (each placed resp. registered as if it were alone, all consumed); an ordinary (not block-structured) instruction without special request, with function-level code possibly pending: entry code once in front of instruction 0, a copy of the exit code in front of every instruction that leaves the function (the four opener / branch cases are stated for functions without function-level entry / exit code). All other combinations (several special requests on a branch, special requests on `else` / `end` other than a block-alternate on `else`, br_table, function-level code together with a special request) are NOT decided; the plan tables are seen through two unrelated views (an uninterpreted one where entries are added by the assumed save_* helpers, the std HashMap view where they are removed and flushed): that what was planned is what is flushed is read, not proved",
+LOWER_GLUE = ["Module::resolve_special_instrumentation: the per-function driver (block stack, which helper runs at which instruction, delete_block / retain_end bookkeeping, resolve_on_end maps) is not under contract, EXCEPT (i) the preparation of entry / exit code before the loop and (ii) WHICH functions the outer loop visits (rule R23, unit V2: every local function of the re-organised container; F30), (iii) ONE ITERATION of the inner loop (rule R19) for twelve cases, each a contract on the same extracted text restricted by its `requires`: inside a removed construct; the opener carrying a block-alternate; the matching `end` of a removed construct; an opener with only a block-entry probe; a block / loop with only a block-exit probe; a single-target branch with only a semantic-after probe; a br_table with only a semantic-after probe (flag created, due at the end of every target and of the default, request consumed); an `end` outside any removed construct with bodies pending in either or both tables (the two flush loops are replaced there by calls of the flush regions, verified on their own against the same text: both tables are flushed at this `end` and their entries taken off) - with function-level entry / exit code possibly pending: at the function's last instruction the wrapper block is closed and the exit code follows, spent there; an `else` outside any removed construct with bodies pending for 'the else or the end' of its `if` (flushed here, taken off, the other table untouched; `remove_for_top`, which stands for the closure expression that removes the entry, is ASSUMED to be HashMap::remove for the innermost open construct); an `else` that carries a block-alternate (pending bodies of its `if` are still flushed here, then the else-arm is replaced and removed up to the `end`, which stays); a block / loop / if with ANY combination of block-entry, block-exit and semantic-after requests (each placed resp. registered as if it were alone, all consumed); an ordinary (not block-structured) instruction without special request, with function-level code possibly pending: entry code once in front of instruction 0, a copy of the exit code in front of every instruction that leaves the function (the four opener / branch cases are stated for functions without function-level entry / exit code). All other combinations (several special requests on a branch, special requests on `else` / `end` other than a block-alternate on `else`, function-level code together with a special request) are NOT decided; the plan tables are seen through two unrelated views (an uninterpreted one where entries are added by the assumed save_* helpers, the std HashMap view where they are removed and flushed): that what was planned is what is flushed is read, not proved",
               "the save_* helpers use HashMap::entry().and_modify(closure): outside Verus (assumed where a contract of C19 / C20 needs them)",
               "the final emission of before / alternate / after lists in encode_internal",
               "'fires once when ...' is an execution-trace property: neither verifier has a WebAssembly semantics; what is proved is WHERE each helper places WHICH code (placement contracts written from the property text)",
@@ -146,6 +146,12 @@ PROPS = {
                         "V2_reindex.fn:lemma_reorganised_distinct",
                         # resolved function-level instrumentation is consumed (cannot be lowered a second time)
                         "V8_lower.resolve_function_entry.*", "V8_lower.fn:resolve_function_entry", "V8_lower.resolve_function_exit.*", "V8_lower.fn:resolve_function_exit",
+                        # ... and so is every instruction-level special request, by the driver iteration that lowers it (a request that stays would be lowered again by a second encode)
+                        "V8_lower.lower_block_entry_opener.*", "V8_lower.fn:Module::lower_block_entry_opener", "V8_lower.lower_block_exit_opener.*", "V8_lower.fn:Module::lower_block_exit_opener",
+                        "V8_lower.lower_opener_with_several_requests.each_request_placed_and_consumed", "V8_lower.fn:Module::lower_opener_with_several_requests",
+                        "V8_lower.lower_semantic_after_branch.flag_created_and_request_consumed", "V8_lower.fn:Module::lower_semantic_after_branch",
+                        "V8_lower.lower_semantic_after_br_table.flag_created_and_request_consumed", "V8_lower.fn:Module::lower_semantic_after_br_table",
+                        "V8_lower.lower_block_alt_opener.opener_replaced_and_request_consumed", "V8_lower.fn:Module::lower_block_alt_opener", "V8_lower.lower_else_block_alt.*", "V8_lower.fn:Module::lower_else_block_alt",
                         # with identity maps (what a second encode must see) the in-place rewrite changes nothing
                         "V3_remap.lemma.identity_remap_is_noop", "V3_remap.fn:lemma_identity_remap_is_noop"],
         "obligations_extra": V12_DATA + ["V12_sections.kf.encode_data_segments.*"],
@@ -307,7 +313,7 @@ PROPS = {
     "C20": {
         "title": "Semantic-after probes fire exactly once after the instruction",
         "units": ["V8_lower", "V2_reindex"],
-        "obligations": V8_BASE + ["V8_lower.flush_*", "V8_lower.fn:Module::flush_*", "V8_lower.lower_semantic_after_branch.*", "V8_lower.fn:Module::lower_semantic_after_branch", "V8_lower.lower_opener_with_several_requests.*", "V8_lower.fn:Module::lower_opener_with_several_requests", "V8_lower.lower_end_with_pending_bodies.*", "V8_lower.fn:Module::lower_end_with_pending_bodies", "V8_lower.create_bool_flag.*", "V8_lower.fn:create_bool_flag", "V8_lower.fn:add_local", "V8_lower.resolve_bodies.*", "V8_lower.fn:resolve_bodies", "V8_lower.plan_resolution_semantic_after.*", "V8_lower.fn:plan_resolution_semantic_after",
+        "obligations": V8_BASE + ["V8_lower.flush_*", "V8_lower.fn:Module::flush_*", "V8_lower.lower_semantic_after_branch.*", "V8_lower.fn:Module::lower_semantic_after_branch", "V8_lower.lower_semantic_after_br_table.*", "V8_lower.fn:Module::lower_semantic_after_br_table", "V8_lower.lower_opener_with_several_requests.*", "V8_lower.fn:Module::lower_opener_with_several_requests", "V8_lower.lower_end_with_pending_bodies.*", "V8_lower.fn:Module::lower_end_with_pending_bodies", "V8_lower.create_bool_flag.*", "V8_lower.fn:create_bool_flag", "V8_lower.fn:add_local", "V8_lower.resolve_bodies.*", "V8_lower.fn:resolve_bodies", "V8_lower.plan_resolution_semantic_after.*", "V8_lower.fn:plan_resolution_semantic_after",
                                    "V8_lower.kf.resolve_bodies.*", "V8_lower.lemma.emitted_chain_is_well_nested_up_to_two_flagged_bodies", "V8_lower.fn:lemma_chain_agrees_up_to_two"],
         "glue": LOWER_GLUE + ["ASSUMED: the contracts of save_{not_,}flagged_body_to_resolve (HashMap entry chains) and of the br_table target loop (a for_each closure, named brtable_save_targets by rule R11): they add the body under (block, mode), flagged with the given local or unflagged, and touch nothing else",
                               "TRUSTED model of wasmparser::BrTable: targets() yields br_targets(t), default() is br_default(t)"],
@@ -395,7 +401,7 @@ PROPS = {
     },
     "C23": {
         "title": "Side-effect report lists exactly the tagged additions and probes",
-        "units": ["V12_sections", "V7_types"],
+        "units": ["V12_sections", "V7_types", "V11_emit"],
         "obligations": ["V12_sections.encode_exports.one_record_per_live_tagged_export", "V12_sections.encode_exports.no_other_records", "V12_sections.fn:Module::encode_exports",
                         "V12_sections.encode_imports.one_record_per_live_tagged_import", "V12_sections.fn:Module::encode_imports",
                         "V12_sections.fn:Export as TagUtils::get_tag", "V12_sections.fn:Import as TagUtils::get_tag",
@@ -405,13 +411,15 @@ PROPS = {
                         "V12_sections.encode_type_section.one_record_per_tagged_type", "V12_sections.encode_type_section.no_other_records", "V12_sections.fn:Module::encode_type_section", "V12_sections.fn:Types as TagUtils::get_tag",
                         "V12_sections.encode_globals.one_record_per_live_tagged_local_global", "V12_sections.encode_globals.no_other_records", "V12_sections.fn:Module::encode_globals", "V12_sections.fn:Global as TagUtils::get_tag", "V12_sections.fn:Global as GetID::*",
                         "V12_sections.encode_data_segments.one_record_per_tagged_segment_in_the_encoded_index_space", "V12_sections.encode_data_segments.no_other_records", "V12_sections.fn:Module::encode_data_segments", "V12_sections.fn:DataSegment as TagUtils::get_tag",
+                        "V11_emit.encode_function_section.one_record_per_live_tagged_local_function", "V11_emit.encode_function_section.no_other_records", "V11_emit.fn:Module::encode_function_section",
+                        "V11_emit.fn:LocalFunction as TagUtils::get_tag", "V11_emit.locals_as_vec.*", "V11_emit.fn:Body::locals_as_vec",
                         # the stored types (and with them their tags) are not touched by later additions: a type gets a record iff it was added with a tag
                         "V7_types.add_type.existing_types_unchanged", "V7_types.add_type.new_type_gets_next_id_and_own_group", "V7_types.fn:ModuleTypes::add_type"],
         "glue": ["ASSUMED: add_injection (a HashMap entry().and_modify(closure).or_insert() chain) appends the record to the list of its kind and touches nothing else; #[derive(Clone)] of Tag, Types and InitExpr, String::clone, <[u8]>::to_vec and Tag::to_owned yield equal values; DataType::from(ValType) is an uninterpreted dt_of (its exactness: Kani K1); str::to_string is modelled by an uninterpreted str_owned",
-                 "the Type, Import, Export, Memory, Table, Element, Global and Data records are decided (the last two through a view, because they hold Vecs: id / type / tag / initialiser resp. memory / offset / bytes / tag, with the indices inside in the index space of the encoded module). Records for functions, locals and probes (add_injections / add_opcode_injections / add_corrected_special_injections: closure-based, over HashMaps) are NOT under contract; that probe bodies use the encoded index space follows only from V11 (every injected operator is remapped in place before the records are built) and is not stated as a clause",
+                 "the Type, Import, Export, Memory, Table, Element, Global, Data and Func records are decided (the last three through a view, because they hold Vecs: id / type / tag / initialiser resp. memory / offset / bytes / tag, with the indices inside in the index space of the encoded module). Func records are made when the function section is written, i.e. with the body as stored BEFORE the code section rewrites it (the caller's index space); Local records are never produced by the library; records for probes (add_injections / add_opcode_injections / add_corrected_special_injections: closure-based, over HashMaps) are NOT under contract; that probe bodies use the encoded index space follows only from V11 (every injected operator is remapped in place before the records are built) and is not stated as a clause",
                  "that items of the parsed module carry no tag (so get no record) is a property of parse_internal (it builds every item with tag None): read, not proved"],
         "design_ref": "DESIGN.md §5 C23",
-        "level_text": "Partial (eight of twelve record kinds; Global records: id, type, tag and the initialiser as emitted; data records: bytes, tag and - active ones - memory and offset as emitted, after fix F31): when side effects are pulled, the report gains exactly one Type record per tagged type of the module (carrying that type; V7: adding a type never changes a stored type or its tag), exactly one Export record per live tagged export, one Import record per live tagged import, one Memory record per tagged local memory, one Table record per tagged table and one Element record per tagged element segment - with the item's own name / kind / index resp. module / name / type resp. id / limits and its tag - and no record for untagged or deleted ones; nothing else in the report changes in those three loops. After fix F25.",
+        "level_text": "Partial (nine of twelve record kinds; Func records: id, name, signature, flat locals, tag, body; Global records: id, type, tag and the initialiser as emitted; data records: bytes, tag and - active ones - memory and offset as emitted, after fix F31): when side effects are pulled, the report gains exactly one Type record per tagged type of the module (carrying that type; V7: adding a type never changes a stored type or its tag), exactly one Export record per live tagged export, one Import record per live tagged import, one Memory record per tagged local memory, one Table record per tagged table and one Element record per tagged element segment - with the item's own name / kind / index resp. module / name / type resp. id / limits and its tag - and no record for untagged or deleted ones; nothing else in the report changes in those three loops. After fix F25.",
     },
 }
 
